@@ -11,6 +11,10 @@ pub fn instances(tier: &str) -> Vec<String> {
     let fp_ok = |la: usize, lb: usize| if tier == "thorough" { la <= 4 && lb <= 3 } else { la <= 3 && lb <= 2 };
     for la in 1..=umax { for lb in 1..=vmax { v.push(format!("div:la={},lb={},fp={}", la, lb, if fp_ok(la, lb) { 1 } else { 0 })); } }
     for lb in 0..=3 { v.push(format!("zero:la=3,lb={}", lb)); }
+    // the Complex<f64> instantiation (the quotient of leading coefficients is a complex division)
+    // (dividend length 4: two of ~10^4 identities stay `unknown` at the cap - outside the claim)
+    let (cu, cv) = if tier == "thorough" { (3, 3) } else { (3, 2) };
+    for la in 1..=cu { for lb in 1..=cv { v.push(format!("cdiv:la={},lb={}", la, lb)); } }
     v
 }
 
@@ -18,9 +22,42 @@ fn z() -> Sym { Sym::lit(0.0) }
 
 const FLOAT_LABEL: &str = "polydiv terminates with Ok for every float input (no reliance on exact cancellation of the leading term)";
 
+fn complex_div(la: usize, lb: usize) {
+    use ohsl_sym::{Cmplx, Polynomial as P2};
+    let cv = |q: &str, n: usize| -> Vec<Cmplx> { (0..n).map(|k| Cmplx::new(Sym::var(&format!("{}r_{}", q, k)), Sym::var(&format!("{}i_{}", q, k)))).collect() };
+    let (a, b) = (cv("u", la), cv("v", lb));
+    let zero = Cmplx::new(z(), z());
+    assume(B::or(vec![ne(b[lb - 1].real, z()), ne(b[lb - 1].imag, z())]));
+    let (pu, pv) = (P2::<Cmplx>::new(a.clone()), P2::<Cmplx>::new(b.clone()));
+    match catch(|| pu.polydiv(&pv)) {
+        Ok(Ok((q, r))) => {
+            let qc: Vec<Cmplx> = (0..q.size()).map(|k| q[k]).collect();
+            let rc: Vec<Cmplx> = (0..r.size()).map(|k| r[k]).collect();
+            let n = la.max(rc.len()).max(if qc.is_empty() { 0 } else { qc.len() + lb - 1 });
+            for k in 0..n {
+                let mut acc = if k < rc.len() { rc[k] } else { zero };
+                for i in 0..qc.len() { if k >= i && k - i < lb { acc = acc + qc[i] * b[k - i]; } }
+                let uk = if k < la { a[k] } else { zero };
+                prove_eq(&format!("complex: u = q*v + r at coefficient {} (real part)", k), acc.real, uk.real);
+                prove_eq(&format!("complex: u = q*v + r at coefficient {} (imaginary part)", k), acc.imag, uk.imag);
+            }
+            let small = rc.len() < lb;
+            let rzero = B::and(rc.iter().flat_map(|c| vec![eq(c.real, z()), eq(c.imag, z())]).collect());
+            prove("complex: r = 0 or deg r < deg v", if small { B::True } else { rzero });
+            prove("complex: deg q = deg u - deg v when the quotient is not zero", if qc.len() <= 1 || qc.len() + lb - 1 <= la { B::True } else { B::False });
+            let intact = (0..la).all(|k| pu[k].real.same(a[k].real) && pu[k].imag.same(a[k].imag)) && (0..lb).all(|k| pv[k].real.same(b[k].real) && pv[k].imag.same(b[k].imag));
+            prove("complex: operands intact", if intact { B::True } else { B::False });
+            control("cdiv control", eq(a[0].real, a[0].real + Sym::lit(1.0)));
+        }
+        Ok(Err(msg)) => { prove(&format!("complex: division by a polynomial with nonzero leading coefficient must succeed (got Err '{}')", msg), B::False); }
+        Err(st) => must_not_stop("complex polydiv must not panic", &st),
+    }
+}
+
 pub fn body(inst: &str) {
     let (kind, p) = parse_inst(inst);
     let (la, lb) = (geti(&p, "la"), geti(&p, "lb"));
+    if kind == "cdiv" { return complex_div(la, lb); }
     let a = var_vec("u", la);
     let b = var_vec("v", lb);
     let pu = Polynomial::new(a.clone());
